@@ -300,7 +300,7 @@ class TreeGen:
         if k in ('tuple', 'list'):
             return D(k, kids(n))
         if k == 'deque':
-            maxlen = rng.choice([None, None, n, n + 2]) if n else rng.choice([None, 0, 3])
+            maxlen = rng.choice([None, None, n, n + 2, 300, 1000]) if n else rng.choice([None, 0, 3, 4096])
             return D('deque', kids(n), meta=maxlen)
         if k in DICTS:
             style = rng.choice(self.p.key_styles)
@@ -315,7 +315,7 @@ class TreeGen:
         if k == 'ss':
             cls = rng.choice(U.STRUCTSEQS[:4])
             return D('ss', kids(U.STRUCTSEQ_ARITY[cls]), cls=cls)
-        meta = rng.choice([None, 0, 'm', ('t', 1), 'other'])
+        meta = rng.choice([None, 0, 'm', ('t', 1), 'other', 1000, 'a longer metadata string', (257, 'x', 2.5)])
         if k == 'cseq':
             return D('custom', kids(n), cls=U.CSeq, meta=meta)
         if k == 'clist':
@@ -353,6 +353,29 @@ class TreeGen:
 def gen_desc(rng, profile_name=None, size_budget=24):
     name = profile_name or rng.choice(PROFILE_NAMES)
     return TreeGen(rng, PROFILES[name]).tree(size_budget), name
+
+
+def fresh(x):
+    """An equal but (where python allows) non-identical copy of a key / metadata value, so that
+    identity-instead-of-equality shortcuts in the engine become observable."""
+    t = type(x)
+    if t is tuple:
+        return tuple([fresh(e) for e in x]) if x else x
+    if t is str:
+        return ''.join(list(x)) if len(x) > 1 else x
+    if t is bytes:
+        return bytes(bytearray(x)) if len(x) > 1 else x
+    if t is int:
+        return int(str(x)) if abs(x) > 256 else x
+    if t is float:
+        return x if x != x else float(repr(x))
+    if t is complex:
+        return complex(repr(x))
+    if t is frozenset:
+        return frozenset(list(x)) if x else x
+    if t in (UKey, OKey, HKey):
+        return t(x.v)
+    return x
 
 
 # ----------------------------------------------------------------------------- materialisation
@@ -531,28 +554,29 @@ class Mat:
         if k == 'list':
             return self._list_script([self.make(c) for c in d.items])
         if k == 'deque':
-            return self._deque_script([self.make(c) for c in d.items], d.meta)
+            return self._deque_script([self.make(c) for c in d.items], fresh(d.meta))
         if k in DICTS:
-            return self._dict_script(k, [(key, self.make(c)) for key, c in d.items], d.meta)
+            return self._dict_script(k, [(fresh(key), self.make(c)) for key, c in d.items], d.meta)
         if k == 'nt':
             return d.cls(*[self.make(c) for c in d.items])
         if k == 'ss':
             return d.cls([self.make(c) for c in d.items])
         if k == 'custom':
             kids = [self.make(c) for c in d.items]
+            meta = fresh(d.meta)
             if d.cls is U.CAttr:
-                return U.CAttr(kids[0], kids[1], d.meta)
+                return U.CAttr(kids[0], kids[1], meta)
             if d.cls is U.DC:
-                return U.DC(kids[0], kids[1], d.meta)
+                return U.DC(kids[0], kids[1], meta)
             if d.cls is U.DCG:
-                return U.DCG(p=kids[0], q=kids[1], tag=d.meta)
-            return d.cls(kids, d.meta)
+                return U.DCG(p=kids[0], q=kids[1], tag=meta)
+            return d.cls(kids, meta)
         if k == 'cmap':
-            return U.CMap([self.make(c) for _, c in d.items], d.meta, [n for n, _ in d.items])
+            return U.CMap([self.make(c) for _, c in d.items], fresh(d.meta), [fresh(n) for n, _ in d.items])
         if k == 'udict':
             u = U.UDict()
             for key, c in d.items:
-                u[key] = self.make(c)
+                u[fresh(key)] = self.make(c)
             return u
         if k == 'partial':
             args = self.make(d.items[0])
@@ -722,7 +746,7 @@ def neutral_edit(desc: D, rng):
                 rng.shuffle(node.items)
                 n += 1
         elif node.k == 'deque' and rng.random() < 0.6:
-            node.meta = rng.choice([None, len(node.items), len(node.items) + 5])
+            node.meta = rng.choice([None, len(node.items), len(node.items) + 5, 1000])
             n += 1
     return out, n
 
